@@ -1,6 +1,7 @@
 package main
 
 import (
+	"go/types"
 	"sort"
 	"fmt"
 	"go/token"
@@ -464,6 +465,11 @@ func (it *Interp) equal(fr *frame, x, y Value) *Term {
 		}
 		if xv.itab != nil && yv.itab != nil && xv.itab != yv.itab {
 			return tFalse // the runtime compares itab pointers first
+		}
+		// the runtime panics for a dynamic type without an equality function, whatever the values hold
+		// (a struct with a slice field, such as every vocabulary struct held by value)
+		if xv.t.t != nil && !types.Comparable(xv.t.t) {
+			it.goPanicf(fr, "comparing uncomparable type %s", xv.t.name)
 		}
 		switch xv.t.kind {
 		case KSlice, KMap, KFunc:
